@@ -561,7 +561,7 @@ impl<T: CanonicalDeserialize> CanonicalDeserialize for Vec<T> {
         let len = u64::deserialize_with_mode(&mut reader, compress, validate)?
             .try_into()
             .map_err(|_| SerializationError::NotEnoughSpace)?;
-        let mut values = Self::with_capacity(len);
+        let mut values = Self::with_capacity(cautious_capacity::<T>(len));
         for _ in 0..len {
             values.push(T::deserialize_with_mode(
                 &mut reader,
@@ -575,6 +575,15 @@ impl<T: CanonicalDeserialize> CanonicalDeserialize for Vec<T> {
         }
         Ok(values)
     }
+}
+
+// Helper function. The length prefix of a serialized sequence is untrusted input: never
+// pre-allocate more than 1 MiB for it (the collection still grows as elements are actually
+// read), so that a bogus prefix cannot cause a capacity overflow or a huge allocation.
+#[inline]
+fn cautious_capacity<T>(len: usize) -> usize {
+    const MAX_PREALLOC_BYTES: usize = 1024 * 1024;
+    core::cmp::min(len, MAX_PREALLOC_BYTES / core::cmp::max(core::mem::size_of::<T>(), 1))
 }
 
 // Helper function. Serializes any sequential data type to the format
@@ -658,7 +667,7 @@ impl<T: CanonicalDeserialize> CanonicalDeserialize for VecDeque<T> {
         let len = u64::deserialize_with_mode(&mut reader, compress, validate)?
             .try_into()
             .map_err(|_| SerializationError::NotEnoughSpace)?;
-        let mut values = Self::with_capacity(len);
+        let mut values = Self::with_capacity(cautious_capacity::<T>(len));
         for _ in 0..len {
             values.push_back(T::deserialize_with_mode(
                 &mut reader,
